@@ -142,7 +142,9 @@ class JSONCodec(AbstractMetadataCodec):
 
     @classmethod
     def is_schema_trivial(self, schema: Mapping) -> bool:
-        return len(schema.get("properties", {})) == 0
+        # Validation can only be skipped if the schema has no keywords that
+        # could reject a value.
+        return set(schema.keys()) <= {"codec", "title", "description", "$schema"}
 
     def __init__(self, schema: Mapping[str, Any]) -> None:
         try:
